@@ -15,7 +15,17 @@ CallIds(r, dir) == LET c == SelectSeq(r.calls, LAMBDA x : x.dir = dir) IN [j \in
 \* type of the single outbound message a step produces ("" = none)
 OutType(a) == IF a.a = "send" THEN "V" ELSE IF a.a = "recv" /\ a.ty = "1" THEN "0" ELSE ""
 
+\* a served ResendRequest: the stored messages pass the outgoing handlers again (no new numbers): every message on
+\* the wire was (re-)saved under its own number, and the numbers are ascending from 1
+ResendOk(r) ==
+  /\ ((\A j \in 1..Len(r.wire) : \E k \in 1..Len(r.saves) : r.saves[k].seq = r.wire[j].seq)
+        \/ Rej(r, "a retransmitted message was saved under a number that is not its own",
+               [wire |-> [j \in 1..Len(r.wire) |-> r.wire[j].seq], saves |-> [k \in 1..Len(r.saves) |-> r.saves[k].seq]]))
+  /\ ((\A j \in 1..(Len(r.wire) - 1) : r.wire[j].seq < r.wire[j + 1].seq)
+        \/ Rej(r, "retransmitted messages are not in ascending order", [wire |-> [j \in 1..Len(r.wire) |-> r.wire[j].seq]]))
+
 StepOk(r) ==
+  IF r.a.a = "recv" /\ r.a.ty = "2" THEN ResendOk(r) ELSE
   LET ot == OutType(r.a)
       saveOk == ot = "" \/ (nsave + 1 # failAt)
       expOut == IF ot = "" THEN <<>> ELSE Ids(OutCalls(hs, ot, saveOk))
